@@ -408,7 +408,7 @@ def _run_c02(tier, seed, jobs):
     items, stats = _expr_items(tier, seed, jobs)
     order = np.random.RandomState(seed).permutation(len(items))
     items = [items[i] for i in order]
-    expr_limit = 8000 if quick else 30000
+    expr_limit = 6000 if quick else 30000
     contexts = []
     c03_contexts = ["lazy", "normalize", "memoize"]
     for src, meta in items[:expr_limit]:
@@ -420,7 +420,7 @@ def _run_c02(tier, seed, jobs):
     c04 = list(TK.c04_cases(tier, seed))
     c05 = list(TK.c05_cases(tier, seed))
     rng = np.random.RandomState(seed + 1)
-    c04_limit = 4000 if quick else 20000
+    c04_limit = 3000 if quick else 20000
     if len(c04) > c04_limit:
         c04 = [c04[i] for i in sorted(rng.choice(len(c04), c04_limit, replace=False))]
     for c in c04:
@@ -523,7 +523,7 @@ def run(prop_id, tier="quick", seed=0, jobs=16):
 
         contexts = list(TC.CONTEXTS)
         sub = _typecheck_start("C03", tier, seed, 1500 if tier == "quick" else 12000, max(2, jobs // 4))
-        res = _run_expr_property("C03", tier, seed, jobs, dict(contexts=contexts, limit=14000 if tier == "quick" else 150000))
+        res = _run_expr_property("C03", tier, seed, jobs, dict(contexts=contexts, limit=10000 if tier == "quick" else 60000))
         _typecheck_join(res, sub, "C03")
         res.bounds["contexts"] = contexts
         res.bounds["reinterpreters"] = ["recursion_reinterpret", "stack_reinterpret"]
